@@ -101,6 +101,7 @@ class VT:
         if bcore.deferredFns:
             return                       # run() drains them right after, no time passes
         if not self.tm.tasks:
+            self.quiesced_at = self.now          # nothing left to do: the instant activity ended
             if self.until is not None and self.until > self.now:
                 self.now = self.until
             bcore.stop()
@@ -121,6 +122,7 @@ class VT:
         self.loops = 0
         self.max_loops = max_loops
         self.overrun = False
+        self.quiesced_at = None              # set when the run ended because no task was left
         self.bcore.run(spin=1.0e9, sigterm=None, sigusr1=None)
         return not self.overrun
 
